@@ -152,6 +152,9 @@ type zzSim struct {
 	faults        int
 	firstFaultAt  int
 	crashArmed    bool
+	midCutArmed   bool
+	midCuts       int // cuts that landed inside a write so far
+	midCutConn    int // connection whose Bob-side link was told to stop inside a write (-1: none)
 	paysDoneAfterFault int
 	stepNo        int
 	windDown      bool
@@ -254,7 +257,7 @@ func zzRunOnce(t *testing.T, r *simcore.Run) {
 					innerStack = zzStack()
 				}
 			}()
-			s := &zzSim{r: r, t: bt}
+			s := &zzSim{r: r, t: bt, midCutConn: -1}
 			s.run()
 		})
 	}()
@@ -559,12 +562,29 @@ func (s *zzSim) step() {
 		return
 	}
 
+	// a link stop that was initiated inside one of Bob's writes is completed
+	// as an ordinary cut of that connection
+	s.mu.Lock()
+	mc := s.midCutConn
+	s.midCutConn = -1
+	s.mu.Unlock()
+	if mc >= 0 {
+		r.Kind(fmt.Sprintf("cut-inside-write:%d", mc))
+		r.Count("fault_cut_inside_write")
+		s.midCuts++
+		s.faultCut(mc)
+		return
+	}
+
 	var faults []zzOp
 	if s.cfg.arm != "calm" && s.faults < s.cfg.maxFaults {
 		for c := 0; c < 2; c++ {
 			c := c
 			if s.conns[c].up {
 				faults = append(faults, zzOp{3, fmt.Sprintf("cut:%d", c), func() { s.faultCut(c) }})
+				if !s.midCutArmed {
+					faults = append(faults, zzOp{2, fmt.Sprintf("cut-inside-write:%d", c), func() { s.faultArmMidCut(c) }})
+				}
 			}
 		}
 		if s.cfg.arm == "restart" || s.cfg.arm == "crash" {
@@ -1085,6 +1105,10 @@ func (s *zzSim) rebootBob(why string) {
 		np, no = bob.sw.circuits.NumPending(), bob.sw.circuits.NumOpen()
 	}
 	crashed := bob.kv.Fenced()
+	s.mu.Lock()
+	s.midCutConn = -1
+	s.mu.Unlock()
+	s.midCutArmed = false
 	lost := s.cutConn(0) + s.cutConn(1)
 	bob.shutdown()
 	synctest.Wait()
@@ -1105,6 +1129,25 @@ func (s *zzSim) rebootBob(why string) {
 		r.Fail("restart", "Bob's database does not open after %s: %v", why, err)
 	}
 	bob.db = db
+	// reach probe: Bob comes back with a forwarding package that carries
+	// only settles/fails (no adds) and is not fully acked - the only durable
+	// record of a downstream resolution that still has to travel upstream
+	if chans, err := db.ChannelStateDB().FetchAllChannels(); err == nil {
+		for _, ch := range chans {
+			pkgs, err := ch.LoadFwdPkgs()
+			if err != nil {
+				continue
+			}
+			for _, pk := range pkgs {
+				if len(pk.Adds) == 0 && len(pk.SettleFails) > 0 && !pk.SettleFailFilter.IsFull() {
+					r.Count("probe_reboot_with_unacked_settlefail_only_pkg")
+				}
+				if len(pk.Adds) > 0 && !pk.AckFilter.IsFull() {
+					r.Count("probe_reboot_with_unacked_adds_pkg")
+				}
+			}
+		}
+	}
 	if err := bob.boot(); err != nil {
 		r.Fail("restart", "Bob does not come up after %s: %v", why, err)
 	}
@@ -1140,6 +1183,38 @@ func (s *zzSim) faultArmCrash() {
 	s.crashArmed = true
 	s.noteFault("crash_armed")
 	zzL(r, "ARM crash of Bob at his write #%d from now (after commit=%v)", k, after)
+}
+
+// faultArmMidCut: the connection drops INSIDE an operation of Bob. Right after
+// Bob's k-th database write from now has committed - on the goroutine that made
+// it, before the writing call returns - Bob's link on that connection is told
+// to stop (what a peer disconnect does) and the connection stops delivering.
+// Whatever the link still does in memory after that write (hand a locked-in
+// settle/fail or add to the switch, answer the peer) happens with its quit
+// channel closed. The next simulator step completes the cut (both links
+// dropped, later re-created from disk).
+func (s *zzSim) faultArmMidCut(conn int) {
+	r := s.r
+	bob := s.nodes[zzB]
+	k := 1 + r.Draw(8)
+	s.midCutArmed = true
+	s.noteFault("cut_inside_write_armed")
+	zzL(r, "ARM cut of connection %d inside Bob's write #%d from now", conn, k)
+	bob.kv.AfterWrite(k, func() {
+		s.mu.Lock()
+		s.midCutArmed = false
+		c := &s.conns[conn]
+		if !c.up || s.nodes[zzB].links[conn] == nil {
+			s.mu.Unlock()
+			return
+		}
+		c.up = false
+		c.epoch++
+		s.midCutConn = conn
+		zl := s.nodes[zzB].links[conn]
+		s.mu.Unlock()
+		go zl.link.Stop()
+	})
 }
 
 func (s *zzSim) faultLongTime() {
